@@ -32,12 +32,25 @@ type fakeBeacon struct {
 	mu            sync.Mutex
 	proposer      map[uint64]uint64
 	slotsPerEpoch uint64
-	srv           *httptest.Server
+	handler       http.Handler
 }
+
+// RoundTrip serves a request in memory (no socket): the consensus-node client goes through
+// http.DefaultClient, whose transport is http.DefaultTransport.
+func (b *fakeBeacon) RoundTrip(r *http.Request) (*http.Response, error) {
+	if r.URL.Host != fakeBeaconHost {
+		return nil, fmt.Errorf("fake transport: unexpected host %q", r.URL.Host)
+	}
+	rw := httptest.NewRecorder()
+	b.handler.ServeHTTP(rw, r)
+	return rw.Result(), nil
+}
+
+const fakeBeaconHost = "beacon.verif.invalid"
 
 func newFakeBeacon(slotsPerEpoch uint64) *fakeBeacon {
 	b := &fakeBeacon{proposer: map[uint64]uint64{}, slotsPerEpoch: slotsPerEpoch}
-	b.srv = httptest.NewServer(http.HandlerFunc(func(w http.ResponseWriter, r *http.Request) {
+	b.handler = http.HandlerFunc(func(w http.ResponseWriter, r *http.Request) {
 		const p = "/eth/v1/validator/duties/proposer/"
 		if !strings.HasPrefix(r.URL.Path, p) {
 			http.NotFound(w, r)
@@ -69,7 +82,8 @@ func newFakeBeacon(slotsPerEpoch uint64) *fakeBeacon {
 		b.mu.Unlock()
 		w.Header().Set("Content-Type", "application/json")
 		_ = json.NewEncoder(w).Encode(out)
-	}))
+	})
+	http.DefaultTransport = b
 	return b
 }
 
@@ -83,9 +97,9 @@ var (
 // next block, the age increment, the pointer fallback and the selection are all the repository's.
 func TestC19_SlotPath(t *testing.T) {
 	rec := recorder("C19")
-	rec.AddRule("slot path: the real maybeTriggerDecryption over a generated synced state (synced-until block and slot moving across the activation block of a second keyper set, queues and pointer rows per set, proposer duties from an in-process consensus-node API, validator registrations), interleaved with received keys, restarts (ages reset, fresh keyper object) and queue growth. Judged whenever a trigger is emitted: it names the slot and the next block, its identities are the reference selection for the keyper set in force at the next block with the pointer age one higher than before the call, and the current_decryption_trigger row matches. Whether a trigger is emitted at all (membership, proposer registration, stale slots) is recorded as labels, not judged. non-trivial as in the first C19 test, or the keyper set in force changed during the history")
+	rec.AddRule("slot path: the real maybeTriggerDecryption over a generated synced state (synced-until block and slot moving across the activation block of a second keyper set, queues and pointer rows per set, proposer duties from an in-memory consensus-node API, validator registrations), interleaved with received keys, restarts (ages reset, fresh keyper object) and queue growth. Judged whenever a trigger is emitted: it names the slot and the next block, its identities are the reference selection for the keyper set in force at the next block with the pointer age one higher than before the call, and the current_decryption_trigger row matches. Whether a trigger is emitted at all (membership, proposer registration, stale slots) is recorded as labels, not judged. non-trivial as in the first C19 test, or the keyper set in force changed during the history")
 	c19BeaconOnce.Do(func() { c19Beacon = newFakeBeacon(16) })
-	bc, err := beaconapiclient.New(c19Beacon.srv.URL)
+	bc, err := beaconapiclient.New("http://" + fakeBeaconHost)
 	if err != nil {
 		t.Fatal(err)
 	}
